@@ -337,13 +337,24 @@ class Engine:
                     done = True
                     break
             if not done:
-                # keep whatever the model says, but pin it to the nearest double if possible
-                f = float(fr)
+                # keep whatever the model says, but pin it to a nearby double if possible
+                try:
+                    f = float(fr)
+                except OverflowError:
+                    f = math.inf
                 if math.isfinite(f):
-                    c = var == _rat(f)
-                    if self.check(*extra, *fixed, c, timeout=timeout) == "sat":
-                        fixed.append(c)
-                        model = self.last_model
+                    cands = [f]
+                    up = dn = f
+                    for _ in range(3):
+                        up = math.nextafter(up, math.inf)
+                        dn = math.nextafter(dn, -math.inf)
+                        cands += [up, dn]
+                    for cf in cands:
+                        c = var == _rat(cf)
+                        if self.check(*extra, *fixed, c, timeout=timeout) == "sat":
+                            fixed.append(c)
+                            model = self.last_model
+                            break
         self.last_model = model
         return self.model_values(model)
 
@@ -740,6 +751,8 @@ class SymFloat:
             return op == "ne"
         if s.k == FIN and o.k == FIN:
             a, b = s.r, o.r
+            if LIN_DIV[0] and (z3.is_div(a) or z3.is_div(b)):
+                a, b, op = _clear_div(a, b, op)
             if op == "lt":
                 e = a < b
             elif op == "le":
@@ -798,6 +811,35 @@ class SymFloat:
 
 
 MERGE = [True]     # merge min/max/abs/clip of finite operands into ite terms
+LIN_DIV = [True]   # compare quotients by cross-multiplication (keeps queries linear when one side is constant)
+OPAQUE_NORM = [False]  # norm of >= 2 symbolic entries: fresh real t with max|c_i| <= t <= sum|c_i| (over-approximation)
+
+_FLIP = {"lt": "gt", "le": "ge", "gt": "lt", "ge": "le", "eq": "eq", "ne": "ne"}
+
+
+def _clear_div(a, b, op):
+    """a op b with a = n/d: returns (n, b*d, op') with the sign of d decided on
+    the current path (forking if the path condition leaves it open)."""
+    for _ in range(4):
+        if z3.is_div(a) and not z3.is_rational_value(a.arg(1)):
+            n, d = a.arg(0), a.arg(1)
+            sd = _sign(d)
+            if sd == 0:
+                raise EngineError("comparison of a quotient with zero denominator")
+            a, b = n, z3.simplify(b * d)
+            if sd < 0:
+                op = _FLIP[op]
+        elif z3.is_div(b) and not z3.is_rational_value(b.arg(1)):
+            n, d = b.arg(0), b.arg(1)
+            sd = _sign(d)
+            if sd == 0:
+                raise EngineError("comparison of a quotient with zero denominator")
+            a, b = z3.simplify(a * d), n
+            if sd < 0:
+                op = _FLIP[op]
+        else:
+            break
+    return a, b, op
 
 
 def ite(c, a, b):
